@@ -117,6 +117,28 @@ def run(tier, seed):
             R.check(msg is None, "multikeydict-behaves-as-the-grouped-map", {"history": [list(map(str, o)) for o in hist]}, msg)
             if msg and len(R.failures) >= 2:
                 break
+    # construction: MultiKeyDict(mapping / pairs / another MultiKeyDict / kwargs) is the same as assigning the items one by one
+    # (a mapping is first turned into a dict, as the constructor does: dict(*args, **kwargs))
+    sources = [{1: "a"}, {1: "a", 2: "a"}, {1: "a", 2: "b", 3: "a"}, {(1, 2): "x"}, {(1, 2): "x", 3: "x"}, {(1, 2): "x", 3: "y", (2,): "y"}, {}, {2: 3, (1,): 4, 1: 3}]
+    for src in sources:
+        def ctor():
+            d = MultiKeyDict(src)
+            mdl = Model()
+            for k_, v_ in dict(src).items():
+                mdl.set(k_ if isinstance(k_, tuple) else (k_,), v_)
+            msg = compare(d, mdl, [1, 2, 3], sorted({v for v in src.values()}, key=repr))
+            if msg:
+                return False, "MultiKeyDict(%r): %s" % (src, msg)
+            d2, m2 = MultiKeyDict(d), Model()
+            for kt, v_ in dict(d).items():
+                m2.set(kt, v_)
+            msg = compare(d2, m2, [1, 2, 3], sorted({v for v in src.values()}, key=repr))
+            if msg:
+                return False, "copy of MultiKeyDict(%r): %s" % (src, msg)
+            d2[3] = "new"; m2.set((3,), "new")
+            msg = compare(d2, m2, [1, 2, 3], sorted({v for v in src.values()} | {"new"}, key=repr))
+            return msg is None, "copy of MultiKeyDict(%r) after a further assignment: %s" % (src, msg)
+        R.guard("multikeydict-construction-is-itemwise-assignment", {"source": repr(src)}, ctor)
     # keys that are equal but of another type / big ints / run-time strings
     def eqkeys():
         d = MultiKeyDict()
@@ -141,18 +163,24 @@ def run(tier, seed):
     # longer histories over a reduced universe (2 names, 2 strategies), exhaustively: re-assignments of what is already
     # there, a default that loses its names and is re-chosen, ...
     small = [("set", ("a",), "f"), ("set", ("a",), "g"), ("set", ("b",), "f"), ("set", ("b",), "g"), ("set", ("a", "b"), "f"),
-             ("del", "a"), ("del", "b"), ("delattr", "a")]
+             ("del", "a"), ("del", "b"), ("delattr", "a"), ("setattr", "a")]
     hists += list(itertools.product(small, repeat=4))
     hists += list(itertools.product(small, repeat=5)) if tier == "thorough" else rnd.sample(list(itertools.product(small, repeat=5)), 3000)
     for hist in hists:
         sd, mdl, default = StrategyDict(), Model(), [None]
+        manual = set()
         msg = None
         for op in hist:
-            if op[0] == "set":
+            if op[0] == "setattr":
+                # the attribute of a name replaced by hand: items, default and calling the dict are not affected
+                setattr(sd, op[1], 42)
+                manual.add(op[1])
+            elif op[0] == "set":
                 keys = tuple(fresh(k) for k in op[1])
                 f = fs[op[2]]
                 sd[keys if len(keys) > 1 else keys[0]] = f
                 mdl.set(op[1], op[2])
+                manual.difference_update(op[1])
             else:
                 had = op[1] in mdl.m
                 try:
@@ -163,11 +191,19 @@ def run(tier, seed):
                     err = False
                 except (KeyError, AttributeError):
                     err = True
-                if had == err:
-                    msg = "%s %r: error %r but the key %s" % (op[0], op[1], err, "exists" if had else "does not exist")
-                    break
-                if had:
-                    mdl.delete(op[1])
+                if op[0] == "delattr" and op[1] in manual:
+                    # an attribute replaced by hand: deleting it puts the item back as the attribute (strategy name) or
+                    # simply removes it (no such strategy); nothing is deleted from the map and no error is raised
+                    if err:
+                        msg = "delattr of a hand-made attribute %r raised" % op[1]
+                        break
+                    manual.discard(op[1])
+                else:
+                    if had == err:
+                        msg = "%s %r: error %r but the key %s" % (op[0], op[1], err, "exists" if had else "does not exist")
+                        break
+                    if had:
+                        mdl.delete(op[1])
             # default rule
             if default[0] is not None and default[0] not in mdl.groups:
                 default[0] = None
@@ -175,10 +211,10 @@ def run(tier, seed):
                 default[0] = op[2]
             for k in names:
                 if k in mdl.m:
-                    if getattr(sd, k, None) is not fs[mdl.m[k]] or sd[k] is not fs[mdl.m[k]]:
+                    if (k not in manual and getattr(sd, k, None) is not fs[mdl.m[k]]) or sd[k] is not fs[mdl.m[k]]:
                         msg = "name %r: attribute / item is not the strategy last assigned" % k
                 else:
-                    if k in vars(sd):
+                    if k in vars(sd) and k not in manual:
                         msg = "name %r was removed but the attribute is still there" % k
             if not msg:
                 if default[0] is None:
